@@ -1,7 +1,9 @@
 //! C19 — ParallelRuleEngine::execute_parallel against the engine's own sequential path.
 //!
 //! case := `<enabled:0|1> <max_threads> <min_rules_per_thread> <reps> <pseed> <facts> <rules> [d<k> (<facts> <rules>)*]`
-//!   facts := `-` | `name=V,name=V,…`          (a dotted name `U.x` is field `x` of object fact `U`)
+//!   facts := `-` | `name=V,name=V,…`          (a dotted name `U.x` is field `x` of object fact `U`; `~U.x` is the FLAT
+//!            top-level fact whose key is spelled `U.x` — `facts.add_value("U.x", v)` — which may coexist with the object
+//!            field of the same spelling and hold another value: the evaluator reads the nested field first)
 //!   V     := `<int>` Value::Integer | `f<int>` Value::Number(<int> as f64) | `b0`/`b1` Value::Boolean | `s<text>` Value::String
 //!   rules := rule;rule;…   rule := `name/salience/enabled/cond/acts`   (KB insertion order)
 //!   cond  := RPN tokens joined by `_` : `L:<field>:<op>:<int|f<int>|b0|b1>` (op ∈ eq ne gt ge lt le)
@@ -149,6 +151,10 @@ fn parse_facts(s: &str) -> Option<Vec<(String, Val)>> {
     s.split(',')
         .map(|kv| {
             let (k, v) = kv.split_once('=')?;
+            // `~` marks a flat key and is only meaningful (and only admitted) in front of a dotted name
+            if k.contains('~') && !(k.starts_with('~') && !k[1..].contains('~') && k.contains('.')) {
+                return None;
+            }
             Some((k.to_string(), parse_val(v)?))
         })
         .collect()
@@ -362,6 +368,11 @@ fn build_facts(kv: &[(String, Val)]) -> Facts {
     let facts = Facts::new();
     let mut objs: BTreeMap<String, HashMap<String, Value>> = BTreeMap::new();
     for (k, v) in kv {
+        if let Some(flat) = k.strip_prefix('~') {
+            // a top-level key that contains a dot
+            facts.add_value(flat, to_value(v)).unwrap();
+            continue;
+        }
         match k.split_once('.') {
             Some((root, field)) => {
                 objs.entry(root.to_string()).or_default().insert(field.to_string(), to_value(v));
@@ -396,6 +407,8 @@ fn show_value(prefix: &str, v: &Value, out: &mut Vec<String>) {
 fn show_facts(f: &Facts) -> String {
     let mut out = Vec::new();
     for (k, v) in f.get_all_facts() {
+        // a top-level key spelled with a dot is shown with the `~` mark: it is not the object field of that spelling
+        let k = if k.contains('.') { format!("~{}", k) } else { k };
         show_value(&k, &v, &mut out);
     }
     out.sort();
@@ -611,6 +624,40 @@ fn gen_facts(rng: &mut Rng, typed: bool) -> Vec<(String, Val)> {
     facts
 }
 
+/// flat top-level keys spelled like the dotted fields (`~U.x`, `~U.y`): with the object field of the same spelling
+/// present and holding ANOTHER value (the nested field must win), with the object present but without that field, or
+/// with no object `U` at all (then the flat key is what the condition reads).  `p` = chance (in 1/8) per case.
+fn add_flat_twins(rng: &mut Rng, facts: &mut Vec<(String, Val)>, typed: bool, p: u64) {
+    if !rng.chance(p, 8) {
+        return;
+    }
+    match rng.below(6) {
+        // the object loses one of its fields / disappears: the flat key is the fallback
+        0 => facts.retain(|(k, _)| k != "U.x"),
+        1 => facts.retain(|(k, _)| !k.starts_with("U.")),
+        _ => {}
+    }
+    let both = rng.chance(1, 2);
+    for f in ["U.x", "U.y"] {
+        if !(both || rng.chance(1, 2)) {
+            continue;
+        }
+        let nested = facts.iter().find(|(k, _)| k == f).map(|(_, v)| v.clone());
+        let mut v = match &nested {
+            // the same number in another type, or another number: a value on which comparisons come out differently
+            Some(x) if typed && rng.chance(1, 3) => twin_of(rng, x),
+            _ => Val::I(rng.below(5) as i64 - 2),
+        };
+        if Some(&v) == nested.as_ref() && !rng.chance(1, 6) {
+            v = match v {
+                Val::I(n) => Val::I(if n >= 2 { n - 3 } else { n + 1 + rng.below(2) as i64 }),
+                _ => Val::I(rng.below(5) as i64 - 2),
+            };
+        }
+        facts.push((format!("~{}", f), v));
+    }
+}
+
 /// `n` rules named `<prefix>0 …`, saliences from `sal_dom` levels, each enabled with probability `p_enabled` %
 fn gen_rules(rng: &mut Rng, n: usize, prefix: &str, sal_dom: u64, p_enabled: u64, typed: bool) -> Vec<RuleSpec> {
     let mut rules = Vec::new();
@@ -648,7 +695,8 @@ fn gen_case(rng: &mut Rng, reps: usize) -> Case {
     let sal_dom = *rng.pick(&[1u64, 2, 2, 3, 4]);
     // a quarter of the cases draws constants and fact values from every scalar type
     let typed = rng.chance(1, 4);
-    let facts = gen_facts(rng, typed);
+    let mut facts = gen_facts(rng, typed);
+    add_flat_twins(rng, &mut facts, typed, 2);
     let p_enabled = *rng.pick(&[100u64, 100, 85, 60]);
     let rules = gen_rules(rng, n, "r", sal_dom, p_enabled, typed);
     Case {
@@ -711,6 +759,12 @@ fn gen_lookalike(rng: &mut Rng, reps: usize) -> Case {
     if rng.chance(1, 3) {
         facts.push(("b".to_string(), rng.pick(&pool).clone()));
     }
+    // a flat key spelled like the nested field, holding a look-alike (or near-miss) of its value
+    if fields.len() == 2 && rng.chance(1, 3) {
+        let nested = facts[1].1.clone();
+        let v = if rng.chance(1, 2) { twin_of(rng, &nested) } else { rng.pick(&pool).clone() };
+        facts.push(("~U.x".to_string(), v));
+    }
     let n = rng.range(2, 10) as usize;
     let ops: &[&str] = match rng.below(4) {
         0 => &["eq"],
@@ -771,6 +825,7 @@ fn gen_session(rng: &mut Rng, reps: usize) -> Case {
     let (sal_dom, p_en) = (*rng.pick(&[1u64, 2, 3]), *rng.pick(&[100u64, 100, 75]));
     c.rules = gen_rules(rng, n, "r", sal_dom, p_en, typed);
     c.facts = gen_facts(rng, typed);
+    add_flat_twins(rng, &mut c.facts, typed, 2);
     for k in 0..rng.range(1, 2) {
         let prefix = if rng.chance(1, 2) { "r".to_string() } else { format!("k{}r", k + 1) };
         let (sal_dom, p_en) = (*rng.pick(&[1u64, 2, 3]), *rng.pick(&[100u64, 100, 75]));
@@ -786,6 +841,10 @@ fn gen_session(rng: &mut Rng, reps: usize) -> Case {
             2..=4 => (gen_rules(rng, n, &prefix, sal_dom, p_en, typed), c.facts.clone()),
             _ => (gen_rules(rng, n, &prefix, sal_dom, p_en, typed), gen_facts(rng, typed)),
         };
+        let mut facts = facts;
+        if !facts.iter().any(|(k, _)| k.starts_with('~')) {
+            add_flat_twins(rng, &mut facts, typed, 2);
+        }
         c.more.push(Stage { facts, rules });
     }
     c
